@@ -11,7 +11,7 @@
    is NOT proved here (category "other"): the harness runs the real code under
    `go build -race`. *)
 From Coq Require Import List Arith Bool ZArith Lia.
-From SV Require Import C04.Heap C04.Model C05.Footprint C05.Spec C05.Model C05.Proofs.
+From SV Require Import C04.Heap C04.Model C05.Footprint C05.Spec C05.Model C05.Proofs C05.ProofsLocal C05.ProofsSolo.
 Import ListNotations.
 
 (* frozen_ops_write_nothing.  On a heap whose flagged objects are all frozen,
@@ -51,6 +51,41 @@ Theorem once_cell :
     r = (match nth_error (decode tab) pc with Some n => RNat n | None => RErr end) /\
     wr fp = [] /\ tl' = tl.
 Proof. exact once_cell_lemma. Qed.
+
+(* race_free with private mutable state.  Threads also own objects that are NOT
+   frozen (their locals, the values of the module they are executing), which may
+   refer to shared values.  `wf ow h`: shared objects (owner None) are frozen
+   and refer to shared objects only; an object owned by thread t refers to
+   shared objects or to t's own.  `sched_ok`: every operation targets (and
+   stores) only objects its thread can reach: shared ones or its own.  Then, for
+   ALL thread counts and schedules, and whatever is done to the private objects
+   (mutation, iteration, freezing), no two steps of different threads conflict. *)
+Theorem race_free_with_private_state :
+  forall ow sched st ts,
+    wf ow (sh_heap st) -> ts_ok ow ts -> sched_ok ow sched ->
+    race_free (run sched st ts).
+Proof. exact race_free_local_lemma. Qed.
+
+(* solo_equivalence with private mutable state: in any interleaving of threads
+   that mutate, iterate over and freeze objects of their own (and read shared
+   ones), every thread's transcript is the transcript of its own operations run
+   alone from the initial state -- other threads change nothing it can reach. *)
+Theorem solo_equivalence_with_private_state :
+  forall ow sched st ts t,
+    wf ow (sh_heap st) -> cache_ok st -> ts_ok ow ts -> sched_ok ow sched ->
+    transcript t (run sched st ts) = solo (ops_of t sched) st (ts t).
+Proof. exact solo_equivalence_local_lemma. Qed.
+
+(* The write footprints of the model are complete: an operation changes no object
+   outside its write footprint (for every heap, frozen or not).  Together with
+   the hook-based correspondence (observed writes = model writes) this is what
+   makes "empty write footprint" mean "nothing is written". *)
+Theorem write_footprint_complete :
+  forall h tl o h' tl' r fp,
+    step_heap h tl o = (h', tl', r, fp) ->
+    length h' = length h /\
+    forall l, (forall f, ~ In (LObj l f) (wr fp)) -> lookup h' l = lookup h l.
+Proof. exact step_heap_writes_complete. Qed.
 
 (* Necessity of the premise: two threads that start iterating over the same
    list, dict or set that is NOT frozen do conflict (both write itercount) --
@@ -118,3 +153,50 @@ Proof. reflexivity. Qed.
 Example ex_unfrozen_mutation_races :
   race_freeb (run [(0, OMutate 0 (LAppend (VAtom 2))); (1, OLen 0)] ex_unfrozen (fun _ => [])) = false.
 Proof. reflexivity. Qed.
+
+(* Private state: list 0 is shared and frozen; list 1 belongs to thread 1 and
+   refers to list 0; list 2 belongs to thread 2.  The threads mutate, iterate
+   over and freeze their own lists while reading the shared one. *)
+Definition ex_own : owner := fun l => match l with 1 => Some 1 | 2 => Some 2 | _ => None end.
+Definition ex_private : shared :=
+  {| sh_heap := [OList true 0 [VAtom 1]; OList false 0 [VRef 0]; OList false 0 []];
+     sh_tabs := []; sh_lnt := [] |}.
+Definition ex_private_sched : list (nat * op) :=
+  [ (1, OMutate 1 (LAppend (VRef 0))); (2, OIterBegin 2); (1, OIterBegin 0); (2, OMutate 2 (GoLAppend (VRef 0)));
+    (1, OIterNext); (2, OIterDone); (2, OMutate 2 (LAppend (VRef 0))); (1, OIterDone); (1, OStoreFreeze 1);
+    (2, OLen 0); (1, OMutate 1 LClear) ].
+
+Example ex_private_wf : wf ex_own (sh_heap ex_private).
+Proof.
+  constructor.
+  - intros l o Hl Ho Hfl.
+    destruct l as [|[|[|l]]]; simpl in *; try discriminate; try (destruct l; discriminate).
+    injection Hl as <-. reflexivity.
+  - intros l o c Hl Ho Hc.
+    destruct l as [|[|[|l]]]; simpl in *; try discriminate; try (destruct l; discriminate).
+    injection Hl as <-. simpl in Hc. destruct Hc as [Hc|[]]. discriminate.
+  - intros l o t c Hl Ho Hc.
+    destruct l as [|[|[|l]]]; simpl in *; try discriminate; try (destruct l; discriminate).
+    + injection Hl as <-. simpl in Hc. destruct Hc as [Hc|[]]. injection Hc as <-. left. reflexivity.
+    + injection Hl as <-. destruct Hc.
+Qed.
+
+Example ex_private_sched_ok : sched_ok ex_own ex_private_sched.
+Proof.
+  intros t o Hin. unfold ex_private_sched in Hin. simpl in Hin.
+  repeat (destruct Hin as [Heq|Hin]; [injection Heq as <- <-; simpl; unfold acc, ex_own; simpl;
+            repeat split; auto; try (first [intros c [Hc|[]]; injection Hc as <-; auto | intros c []])|]).
+  destruct Hin.
+Qed.
+
+Example ex_private_results :
+  map ev_res (run ex_private_sched ex_private (fun _ => [])) =
+    [RUnit; RUnit; RUnit; RErr; RVal (VAtom 1); RUnit; RUnit; RUnit; RUnit; RNat 1; RErr]
+  /\ race_freeb (run ex_private_sched ex_private (fun _ => [])) = true.
+Proof. split; reflexivity. Qed.
+
+Example ex_private_solo :
+  transcript 1 (run ex_private_sched ex_private (fun _ => [])) = solo (ops_of 1 ex_private_sched) ex_private []
+  /\ transcript 2 (run ex_private_sched ex_private (fun _ => [])) = solo (ops_of 2 ex_private_sched) ex_private []
+  /\ transcript 2 (run ex_private_sched ex_private (fun _ => [])) = [RUnit; RErr; RUnit; RUnit; RNat 1].
+Proof. repeat split; reflexivity. Qed.
